@@ -419,9 +419,9 @@ _ALT_CFG = [{'kind': 'named', 'units': {'length': 'nm', 'time': 'ns'}}, {'kind':
 # factor remembered from an earlier configuration) also shows in plan-less cases that merely run after other cases of the
 # shard; the simplest choice is therefore a self-contained plan (same dump + load under the default units, then under
 # reset_units(length='nm')) so that the shrunk replay file reproduces in a fresh process.
-_plan_on = st.sampled_from([True, False, True, False, True])
+_plan_on = st.sampled_from([True, False, True, False, False])
 _pre_kind = st.sampled_from(['default', 'none', 'default', 'other', 'none'])
-_cross_on = st.sampled_from([False, True, False, True, False])
+_cross_on = st.sampled_from([False, True, True, False, True])
 
 
 def _other_than(cfg, ref):
